@@ -3,6 +3,7 @@ package chk
 import (
 	"fmt"
 	"go/types"
+	"strconv"
 	"strings"
 
 	"golang.org/x/tools/go/ssa"
@@ -57,10 +58,85 @@ func (a *NilAnalysis) containerLen(g *cgraph, x ssa.Value) (string, int64) {
 }
 
 // proveSite decides one site; why explains a failure.
+// phiCase: while proving a site, phi ph is taken to be its operand e, arriving from pred.
+type phiCase struct {
+	ph   *ssa.Phi
+	e    ssa.Value
+	pred *ssa.BasicBlock
+}
+
+// proveSite proves the site directly, or by cases on a merge (a phi that is not loop-carried) used
+// as index or bound: for every operand of the phi, with the facts that hold on the edge it arrives
+// from added to those that hold at the site.
 func (a *NilAnalysis) proveSite(fn *ssa.Function, s boundSite) (bool, string) {
-	a.cur, a.curFn = s.ins, fn
-	defer func() { a.cur, a.curFn = nil, nil }()
+	ok, why := a.proveSiteIn(fn, s, nil)
+	if ok {
+		return ok, why
+	}
+	for _, v := range []ssa.Value{s.idx, s.lo, s.hi} {
+		if v == nil {
+			continue
+		}
+		base, _ := linear(v)
+		ph, isPhi := base.(*ssa.Phi)
+		if !isPhi || !isIntegerT(ph.Type()) {
+			continue
+		}
+		all := true
+		for i, e := range ph.Edges {
+			pred := ph.Block().Preds[i]
+			if ph.Block().Dominates(pred) { // loop-carried: the operand belongs to another trip
+				all = false
+				break
+			}
+			if ok2, _ := a.proveSiteIn(fn, s, &phiCase{ph, e, pred}); !ok2 {
+				all = false
+				break
+			}
+		}
+		if all {
+			return true, ""
+		}
+	}
+	return ok, why
+}
+
+func (a *NilAnalysis) proveSiteIn(fn *ssa.Function, s boundSite, pc *phiCase) (bool, string) {
+	a.cur, a.curFn, a.curCase = s.ins, fn, pc
+	defer func() { a.cur, a.curFn, a.curCase = nil, nil, nil }()
 	g := a.newGraph(fn, s.ins)
+	if pc != nil {
+		// facts on the edge pred -> phi block (facts about registers never expire)
+		if out, ok := a.out[pc.pred]; ok {
+			f := out.clone()
+			for si, sc := range pc.pred.Succs {
+				if sc == pc.ph.Block() {
+					if !(len(pc.pred.Succs) == 2 && pc.pred.Succs[0] == pc.pred.Succs[1]) {
+						a.edgeFacts(fn, pc.pred, si, f)
+					}
+					break
+				}
+			}
+			for k := range f {
+				switch {
+				case strings.HasPrefix(k, "N|"):
+					p := strings.Split(k, "|")
+					if c, err := strconv.ParseInt(p[3], 10, 64); err == nil {
+						g.le(p[1], p[2], c)
+					}
+				case strings.HasPrefix(k, "NE|"):
+					p := strings.Split(k, "|")
+					g.ne[g.canon(p[1])+"|"+g.canon(p[2])+"|"+p[3]] = true
+				}
+			}
+		}
+		if t, k, ok := a.intTerm(pc.e); ok {
+			g.define(pc.e, 0)
+			own := a.regKey(pc.ph)
+			g.le(own, orZero(t), k)
+			g.le(orZero(t), own, -k)
+		}
+	}
 	lt, lk := a.containerLen(g, s.x)
 	switch s.kind {
 	case "index":
